@@ -24,7 +24,7 @@ def decSubSample (bs : Bytes) : Option (SubSample × Bytes) :=
   some ({ clear := c, encrypted := e }, bs)
 
 def SubSample.Wf (s : SubSample) : Prop := s.clear < 65536 ∧ s.encrypted < 4294967296
-instance (s : SubSample) : Decidable s.Wf := by unfold SubSample.Wf; infer_instance
+instance instCenc1 (s : SubSample) : Decidable s.Wf := by unfold SubSample.Wf; infer_instance
 
 structure SencSample where
   iv : Bytes
@@ -147,7 +147,7 @@ def sencSampleOk (withSubs : Bool) (ivSize : Nat) (size : Nat) (s : SencSample) 
      (if s.subsamples.isEmpty then size < ivSize + 2
       else ivSize + 2 ≤ size ∧ s.subsamples.length < 65536 ∧ s.subsamples.length * 6 ≤ size)
    else s.subsamples = [])
-instance (f : Bool) (iv sz : Nat) (s : SencSample) : Decidable (sencSampleOk f iv sz s) := by
+instance instCenc2 (f : Bool) (iv sz : Nat) (s : SencSample) : Decidable (sencSampleOk f iv sz s) := by
   unfold sencSampleOk; infer_instance
 
 def sencSamplesOk (flags : Bool) (ivSize : Nat) (c : SencCtx) : Nat → List SencSample → Prop
@@ -172,7 +172,7 @@ def Senc.Wf (c : SencCtx) (x : Senc) : Prop :=
      x.algorithm_id < 16777216 ∧ (x.iv_size = 8 ∨ x.iv_size = 16) ∧ x.kid.length = 16
    else x.algorithm_id = 0 ∧ x.iv_size = c.ivSize ∧ (c.ivSize = 8 ∨ c.ivSize = 16) ∧ x.kid = []) ∧
   sencSamplesOk (hasBit x.flags 1) x.iv_size c 0 x.samples
-instance (c : SencCtx) (x : Senc) : Decidable (x.Wf c) := by unfold Senc.Wf; infer_instance
+instance instCenc3 (c : SencCtx) (x : Senc) : Decidable (x.Wf c) := by unfold Senc.Wf; infer_instance
 
 /-! ### pssh -/
 structure Pssh where
@@ -187,7 +187,7 @@ def Pssh.Wf (x : Pssh) : Prop :=
   x.version < 256 ∧ x.flags < 16777216 ∧ x.system_id.length = 16 ∧
   (x.version = 0 → x.key_ids = []) ∧ x.key_ids.length < 4294967296 ∧
   (∀ k ∈ x.key_ids, k.length = 16) ∧ x.data.length < 4294967296
-instance (x : Pssh) : Decidable x.Wf := by unfold Pssh.Wf; infer_instance
+instance instCenc4 (x : Pssh) : Decidable x.Wf := by unfold Pssh.Wf; infer_instance
 
 /-- `kid_count` + key ids – only when `version > 0` -/
 def encPsshKids (present : Bool) (kids : List Bytes) : Bytes :=
